@@ -205,7 +205,9 @@ def check(seed, tier, n_quick=10, n_thorough=80):
     dist = {}
     for (sc, r), mo in zip(res, outs):
         if getattr(r, "error", None): broken.append(f"scenario {sc.name}: {r.error}"); continue
-        violations += monitors(sc, r, mo)
+        vs, note = e2e.confirm(sc, r, (lambda sc_, r_, mo_=mo: monitors(sc_, r_, mo_)), os.path.join(vlib.BUILD, "e2e-run", f"scr-{seed}"))
+        violations += vs
+        if note: dist["e2e:scr:unconfirmed-or-unevaluable"] = dist.get("e2e:scr:unconfirmed-or-unevaluable", 0) + 1
         for s in sc.meta["scripts"].values(): dist["e2e:script:" + s["beh"]] = dist.get("e2e:script:" + s["beh"], 0) + 1
         en = parse_model(mo)[0]
         dist[f"e2e:enabled:{len(en)}of{len(sc.meta['defs'])}"] = dist.get(f"e2e:enabled:{len(en)}of{len(sc.meta['defs'])}", 0) + 1
